@@ -26,9 +26,19 @@ pub trait VerifCtx<T> { fn verif_ctx(self) -> Result<T, VErr>; }
 impl<'a> VerifCtx<&'a Primitive> for Option<&'a Primitive> {
     #[verifier::external_body] fn verif_ctx(self) -> (r: Result<&'a Primitive, VErr>) ensures r is Ok <==> self is Some, r is Ok ==> Some(r->Ok_0) == self { unimplemented!() }
 }
-#[verifier::external_body] pub struct Request { x: usize }
-pub uninterp spec fn req_arg(r: &Request) -> Primitive;
-#[verifier::external_body] pub fn mk_request(arg: Primitive) -> (r: Request) ensures req_arg(&r) == arg { unimplemented!() }
+// what the bridge keeps of the function value it was given, and the request it issues per element
+#[verifier::external_body] pub struct PathV { x: usize }          // String (the function's location)
+#[verifier::external_body] pub struct CapsV { x: usize }          // VariableMapping: the captured variables of a closure
+#[verifier::external_body] pub struct StackRef { x: usize }       // Rc<RefCell<Stack>>
+impl PathV { #[verifier::external_body] pub fn verif_clone(&self) -> (r: PathV) ensures r == *self { unimplemented!() } }
+impl StackRef { #[verifier::external_body] pub fn verif_clone(&self) -> (r: StackRef) ensures r == *self { unimplemented!() } }
+pub trait VerifClone { fn verif_clone(&self) -> Self where Self: Sized; }
+#[verifier::external_body] pub fn clone_caps(c: &Option<CapsV>) -> (r: Option<CapsV>) ensures r == *c { unimplemented!() }
+pub struct PrimitiveFunction { pub location: PathV, pub callback_state: Option<CapsV> }
+pub struct OpSelf { pub callback_path: PathV, pub callback_state: Option<CapsV>, pub call_stack: StackRef }
+pub enum JumpRequestDestination { Standard(PathV) }
+pub struct JumpRequest { pub destination: JumpRequestDestination, pub arguments: Vec<Primitive>, pub callback_state: Option<CapsV>, pub stack: StackRef }
+pub fn vec1(a: Primitive) -> (r: Vec<Primitive>) ensures r@ == seq![a] { let mut v = Vec::new(); v.push(a); v }
 """
 
 
@@ -45,10 +55,31 @@ def wait_for_body(src, log, op):
         Rule("R10", "let underlying = self . underlying . 0 . borrow ( ) ;", "", count=1, why="GcCell borrow: the list as it is now is a parameter (R10)"),
         Rule("R8", "underlying [ this_index as usize ]", "underlying . verif_index ( this_index as usize )", why="slice index with its panic precondition"),
         Rule("R3", ". context ( $m ) ?", ". verif_ctx ( ) ?", why="context text dropped; None -> Err"),
-        Rule("R1", ". clone ( )", ". verif_clone ( )", why="Primitive::clone"),
-        Rule("R6", "Ok ( JumpRequest { $$f } )", "Ok ( mk_request ( this_value ) )", count=1, why="request construction abstract: the element is its only argument"),
+        Rule("R1", "self . callback_state . clone ( )", "clone_caps ( & self . callback_state )", why="Option<VariableMapping>::clone"),
+        Rule("R1", ". clone ( )", ". verif_clone ( )", why="clone of an opaque value"),
+        Rule("R12", "vec ! [ this_value ]", "vec1 ( this_value )", why="vec![x]"),
     ], log, f"{op}::wait_for")
     check_closed(b, f"{op}::wait_for")
+    return b
+
+
+def new_body(src, log, op):
+    frun = src.fn(FUNC, "run", "impl BuiltInFunction")
+    try:
+        it = extract_item(frun["body"], f"impl {op}")
+        f = extract_fn(it["body"], "new")
+    except Exception as e:
+        raise Undecided(f"{FUNC}: `impl {op}` / new not found: {e}")
+    b = translate(f["body"], [
+        Rule("R1", "let underlying_len = { underlying . 0 . borrow ( ) . len ( ) } ;", "", why="capacity hint"),
+        Rule("R1", "callback_fn . callback_state . clone ( )", "clone_caps ( & callback_fn . callback_state )", why="Option<VariableMapping>::clone"),
+        Rule("R1", ". clone ( )", ". verif_clone ( )", why="clone of an opaque value"),
+        Rule("R10", "map_result : GcVector :: with_capacity ( underlying_len ) ,", "", why="result list / visited list / counter: plain state outside this model (R10)"),
+        Rule("R10", "filter_result : GcVector :: default ( ) ,", "", why="result list: outside this model (R10)"),
+        Rule("R10", "underlying , index : Cell :: new ( 0 ) ,", "", why="visited list and counter: parameters of wait_for in this model (R10)"),
+        Rule("R1", "Self {", "OpSelf {", why="Self -> the model's struct"),
+    ], log, f"{op}::new")
+    check_closed(b, f"{op}::new")
     return b
 
 
@@ -81,16 +112,27 @@ def build(repo):
     log = []
     fns, obls = [], []
     for arm, op in (("VecMap", "MapOp"), ("VecFilter", "FilterOp")):
-        bw = wait_for_body(src, log, op)
+        bw = ["this" if t == "self" else t for t in wait_for_body(src, log, op)]
+        bn = new_body(src, log, op)
         bh = head_of_arm(src, log, arm, op)
         fns.append(f"""
 //@ OBL C17.bridge.{arm}.visit
 // {op}::wait_for: visiting the next element -- for ANY length the list has at that moment (the callback may have removed elements)
-pub fn {op}_wait_for(index: i32, underlying: &ListNow) -> (r: Result<Request, VErr>)
+pub fn {op}_wait_for(this: &OpSelf, index: i32, underlying: &ListNow) -> (r: Result<JumpRequest, VErr>)
     requires 0 <= index < i32::MAX
-    ensures r is Ok ==> index < items(underlying).len() && req_arg(&r->Ok_0) == items(underlying)[index as int],
+    ensures r is Ok ==> index < items(underlying).len() && r->Ok_0.arguments@ == seq![items(underlying)[index as int]]
+        // C07: the function is called as the closure it is -- with the captured variables it was created with -- on the caller's stack
+        && r->Ok_0.callback_state == this.callback_state && r->Ok_0.destination == JumpRequestDestination::Standard(this.callback_path) && r->Ok_0.stack == this.call_stack,
 {{
 {render(bw, 1)}
+}}
+
+//@ OBL C07.bridge.{arm}.new
+// {op}::new: the bridge keeps the function's location and its captured variables
+pub fn {op}_new(callback_fn: PrimitiveFunction, call_stack: StackRef) -> (r: OpSelf)
+    ensures r.callback_path == callback_fn.location, r.callback_state == callback_fn.callback_state, r.call_stack == call_stack,
+{{
+{render(bn, 1)}
 }}
 
 //@ OBL C13.bridge.{arm}.empty
@@ -102,13 +144,14 @@ pub fn {arm}_head(v: &ListNow) -> (r: Option<usize>)
     None
 }}
 """)
-        obls.append(Obl(f"C17.bridge.{arm}.visit", ["C17", "C13"], fn=f"{op}::wait_for", desc=f"{op}::wait_for: never indexes past the end of the list as it is at that moment (failure instead of a Rust panic)"))
+        obls.append(Obl(f"C07.bridge.{arm}.new", ["C07"], fn=f"{op}::new", desc=f"{op}::new keeps the callback's location and captured variables"))
+        obls.append(Obl(f"C17.bridge.{arm}.visit", ["C17", "C13", "C07"], fn=f"{op}::wait_for", desc=f"{op}::wait_for: never indexes past the end of the list as it is at that moment (failure instead of a Rust panic)"))
         obls.append(Obl(f"C13.bridge.{arm}.empty", ["C13", "C17"], fn=f"BuiltInFunction::run[{arm}]", desc=f"{arm}: an empty receiver returns an empty list without starting the callback bridge (the bridge protocol calls wait_for before it tests for the end)"))
     gen = header(log, f"{FUNC}: BuiltInFunction::run arms VecMap / VecFilter (head), MapOp::wait_for, FilterOp::wait_for") + SPEC + \
         "impl Primitive { pub fn verif_clone(&self) -> (r: Primitive) ensures r == *self { clone_prim(self) } }\n" + "\n".join(fns) + "\n} // verus!\nfn main() {}\n"
     return gen, obls, log
 
 
-UNITS = [VUnit("c17_bridge", ["C17", "C13"], "list.map / list.filter bridges: no out-of-range visit, empty receiver", build)]
+UNITS = [VUnit("c17_bridge", ["C17", "C13", "C07"], "list.map / list.filter bridges: no out-of-range visit, empty receiver", build)]
 UNITS[0].assumes = ["fragments: the statements of the VecMap / VecFilter arms in front of the local struct definitions, and the wait_for methods of the two bridges; `then` / `finish` and the bridge loop of Function::run (abstract in C01.run.step) are not covered",
                     "Cell<i32> / GcCell as plain state (R10); the visited list is arbitrary at each visit (the callback may change it)"]
